@@ -104,6 +104,7 @@ func sysNew(f []string) vlib.Res {
 		"xalias.zone.test. 300 IN CNAME www.other.test.",
 		"ialias.zone.test. 300 IN CNAME www.plain.test.",
 		"*.w.zone.test. 120 IN TXT \"wild\"",
+		"real.w.zone.test. 120 IN TXT \"real\"",
 		"txt.zone.test. 300 IN TXT \"hello\"",
 		"deep.a.b.zone.test. 300 IN A 192.0.2.12",
 		"mx.zone.test. 300 IN MX 10 www.zone.test.")
@@ -160,7 +161,7 @@ func signWith(k *l3.KeyPair, zone string, set []dns.RR, inc, exp time.Time) *dns
 		Algorithm: k.Key.Algorithm, OrigTtl: h.Ttl, Expiration: uint32(exp.Unix()), Inception: uint32(inc.Unix()),
 		KeyTag: k.Key.KeyTag(), SignerName: zone}
 	if err := sig.Sign(k.Priv.(crypto.Signer), set); err != nil {
-		panic(err)
+		panic(fmt.Sprintf("c01 tamper: cannot sign %s: %v", h.Name, err))
 	}
 	return sig
 }
@@ -417,7 +418,7 @@ func (s *sysWorld) apply(t tamper, q dns.Question, m *dns.Msg) *dns.Msg {
 				set = []dns.RR{dns.Copy(z.SOA)}
 			} else {
 				set = []dns.RR{&dns.NSEC{Hdr: dns.RR_Header{Name: z.Name, Rrtype: dns.TypeNSEC, Class: dns.ClassINET, Ttl: 300},
-					NextDomain: "aaa." + strings.TrimPrefix("."+z.Name, "."), TypeBitMap: []uint16{dns.TypeNS, dns.TypeSOA, dns.TypeRRSIG, dns.TypeNSEC, dns.TypeDNSKEY}}}
+					NextDomain: "aaa." + strings.TrimPrefix(z.Name, "."), TypeBitMap: []uint16{dns.TypeNS, dns.TypeSOA, dns.TypeRRSIG, dns.TypeNSEC, dns.TypeDNSKEY}}}
 			}
 			m.Ns = append(m.Ns, set[0], signWith(z.Keys[0], z.Name, set, z.SigInception, z.SigExpiration))
 			if q.Qtype == dns.TypeDS {
@@ -448,6 +449,38 @@ func (s *sysWorld) apply(t tamper, q dns.Question, m *dns.Msg) *dns.Msg {
 				TypeCovered: dns.TypeNS, Algorithm: dns.ECDSAP256SHA256, Labels: uint8(dns.CountLabel(nsOwner)), OrigTtl: 300,
 				Expiration: uint32(now.Add(time.Hour).Unix()), Inception: uint32(now.Add(-time.Hour).Unix()), KeyTag: 4242,
 				SignerName: parentZone, Signature: base64.StdEncoding.EncodeToString(seedBytes(4242, 64))})
+		}
+	case "wildcard-replay":
+		// a name that EXISTS below a wildcard is answered with the wildcard's data and the wildcard's
+		// genuine signature (label count of the wildcard), without any next-closer denial
+		z := s.w.Zones["zone.test."]
+		if z != nil && z.Signed && len(z.Keys) > 0 && q.Qtype == dns.TypeTXT && strings.HasSuffix(strings.ToLower(q.Name), ".w.zone.test.") {
+			wc, _ := dns.NewRR("*.w.zone.test. 120 IN TXT \"wild\"")
+			sg := signWith(z.Keys[0], z.Name, []dns.RR{wc}, z.SigInception, z.SigExpiration)
+			sg.Hdr.Name = q.Name
+			exp := dns.Copy(wc)
+			exp.Header().Name = q.Name
+			m.Answer, m.Ns = []dns.RR{exp, sg}, nil
+			m.Rcode = dns.RcodeSuccess
+		}
+	case "ds-childside":
+		// a DS query (parent side of the cut) is answered with the CHILD's own, genuinely signed NODATA for
+		// its apex (SOA + apex NSEC with the SOA bit): it proves nothing about the delegation; referrals lose their DS
+		if q.Qtype == dns.TypeDS {
+			if child := s.w.Zones[strings.ToLower(q.Name)]; child != nil && child.Signed {
+				n := new(dns.Msg)
+				n.SetReply(&dns.Msg{MsgHdr: dns.MsgHdr{Id: m.Id}, Question: []dns.Question{q}})
+				child.Answer(q, true, n)
+				n.Extra = m.Extra
+				m = n
+			}
+		} else {
+			each(func(rr dns.RR) dns.RR {
+				if rr.Header().Rrtype == dns.TypeDS || isSigFor(rr, dns.TypeDS) {
+					return nil
+				}
+				return rr
+			})
 		}
 	case "replay-old":
 		// data the zone published in the past, with the signatures of that time (now expired):
@@ -556,6 +589,9 @@ func (s *sysWorld) apply(t tamper, q dns.Question, m *dns.Msg) *dns.Msg {
 			m.Rcode = dns.RcodeSuccess
 			m.Authoritative = true
 		}
+	case "rcode": // a data-less error reply with the given rcode
+		m.Answer, m.Ns = nil, nil
+		m.Rcode = vlib.Atoi(t.arg)
 	case "nodata-forge": // a positive answer is replaced by an unsigned empty NOERROR
 		if len(m.Answer) > 0 {
 			m.Answer, m.Ns = nil, nil
@@ -579,7 +615,14 @@ func (s *sysWorld) install(srvName string) {
 		srv.SetBehaviour(l3.Behaviour{})
 		return
 	}
-	srv.SetBehaviour(l3.Behaviour{Tamper: func(q dns.Question, m *dns.Msg, tcp bool) *dns.Msg {
+	srv.SetBehaviour(l3.Behaviour{Tamper: func(q dns.Question, m *dns.Msg, tcp bool) (out *dns.Msg) {
+		honest := m.Copy()
+		defer func() {
+			// a script that cannot be applied to this particular response leaves it honest
+			if p := recover(); p != nil {
+				out = honest
+			}
+		}()
 		for _, t := range ts {
 			m = s.apply(t, q, m)
 		}
@@ -683,6 +726,9 @@ func sysQuery(f []string) vlib.Res {
 		}
 	}
 	servfail := r.Rcode == dns.RcodeServerFailure
+	// a data-less error reply other than SERVFAIL (FORMERR, NOTIMP … relayed from upstream) tells the
+	// client nothing about the name: it is a failure, not data and not a denial
+	otherError := r.Rcode != dns.RcodeSuccess && r.Rcode != dns.RcodeNameError && !servfail && len(ans) == 0 && !r.AuthenticatedData
 	wantsAD := fl.DO || fl.AD
 	var v []string
 	add := func(sig, format string, a ...any) { v = append(v, fail(sig, format, a...)) }
@@ -720,11 +766,11 @@ func sysQuery(f []string) vlib.Res {
 	if !fl.CD {
 		switch {
 		case sys.noAnchor:
-			if !servfail && !(sys.cleared && isTruth) {
+			if !servfail && !otherError && !(sys.cleared && isTruth) {
 				add("l3/no-anchor/answered-without-trust-anchor", "%s %s rcode=%s ans=%v", name, f[3], dns.RcodeToString[r.Rcode], l3.SortRRs(ans))
 			}
 		case tr.Status == l3.Secure:
-			if !servfail && !isTruth {
+			if !servfail && !otherError && !isTruth {
 				reason := "altered-data"
 				switch {
 				case len(ans) == 0 && r.Rcode == dns.RcodeNameError:
@@ -744,7 +790,7 @@ func sysQuery(f []string) vlib.Res {
 				add("l3/secure/"+reason, "%s %s rcode=%s got=%v want=%s %v", name, f[3], dns.RcodeToString[r.Rcode], l3.SortRRs(ans), dns.RcodeToString[tr.Rcode], l3.SortRRs(tr.Answer))
 			}
 		case tr.Status == l3.Bogus:
-			if !servfail {
+			if !servfail && !otherError {
 				add("l3/bogus/answered", "%s %s rcode=%s", name, f[3], dns.RcodeToString[r.Rcode])
 			}
 		}
@@ -807,7 +853,7 @@ func genL3(r *vlib.R, emit func(string)) int {
 	e(fmt.Sprintf("l3 new alg=%d zone=%s isigned=%s zsame=%s sub=%s same=%s keys=%s anchors=%s", alg, zone, isigned, zsame, subk, same, keys, anchors))
 
 	qs := []sysQ{{"www.zone.test.", "A"}, {"alias.zone.test.", "A"}, {"xalias.zone.test.", "A"}, {"ialias.zone.test.", "A"},
-		{"x.w.zone.test.", "TXT"}, {"a.b.w.zone.test.", "TXT"}, {"txt.zone.test.", "TXT"}, {"nope.zone.test.", "A"},
+		{"x.w.zone.test.", "TXT"}, {"a.b.w.zone.test.", "TXT"}, {"real.w.zone.test.", "TXT"}, {"real.w.zone.test.", "TXT"}, {"txt.zone.test.", "TXT"}, {"nope.zone.test.", "A"},
 		{"www.zone.test.", "AAAA"}, {"deep.a.b.zone.test.", "A"}, {"mx.zone.test.", "MX"},
 		{"zone.test.", "DS"}, {"zone.test.", "DNSKEY"}, {"zone.test.", "SOA"}, {"www.other.test.", "A"}, {"www.plain.test.", "A"},
 		{"x.w.zone.test.", "A"}, {"test.", "SOA"}, {".", "SOA"}, {"nonexistent-tld.", "A"}}
@@ -857,14 +903,16 @@ func genL3(r *vlib.R, emit func(string)) int {
 		{"inject-answer-front", "-", "data"}, {"inject-ns", "-", "data"}, {"inject-extra", "-", "data"}, {"inject-inzone", "-", "data"},
 		{"addrr", "-", "data"}, {"nodata-forge", "-", "data"}, {"nxdomain-forge", "-", "data"}, {"forge-answer", "-", "data"},
 		{"evilkey", "plain", "all"}, {"evilkey", "keepsig", "all"}, {"evilkey", "replace", "all"},
-		{"replay-old", "-", "data"}, {"replay-old", "-", "data"}, {"ds-to-soa", "-", "all"}, {"ds-to-nsec", "-", "all"}, {"ds-to-nssig", "-", "all"}}
+		{"replay-old", "-", "data"}, {"replay-old", "-", "data"}, {"ds-to-soa", "-", "all"}, {"ds-to-nsec", "-", "all"}, {"ds-to-nssig", "-", "all"},
+		{"wildcard-replay", "-", "data"}, {"wildcard-replay", "-", "data"}, {"ds-childside", "-", "all"},
+		{"rcode", "1", "data"}, {"rcode", "4", "data"}, {"rcode", "5", "data"}, {"rcode", "9", "data"}, {"rcode", "3", "all"}}
 	if keys == "pairkk" {
 		kinds = append(kinds, tk{"clonekey", "-", "all"}, tk{"clonekey", "-", "all"}, tk{"evilkey", "sametag", "all"}, tk{"evilkey", "sametag", "all"})
 	}
 	if zone == "s" && r.Chance(1, 6) {
 		// downgrade attempts: the parent's referral loses the DS in some way AND the child serves forged unsigned data
 		nt = 0
-		how := vlib.Pick(r, []string{"dropds", "ds-to-nssig", "ds-to-nssig", "ds-to-soa", "ds-to-nsec", "swapds"})
+		how := vlib.Pick(r, []string{"dropds", "ds-to-nssig", "ds-to-nssig", "ds-to-soa", "ds-to-nsec", "swapds", "ds-childside", "ds-childside"})
 		parent := "tld"
 		if zsame == "t" {
 			parent = "zone"
@@ -880,10 +928,10 @@ func genL3(r *vlib.R, emit func(string)) int {
 	for i := 0; i < nt; i++ {
 		k := vlib.Pick(r, kinds)
 		srv := vlib.Pick(r, servers)
-		if k.kind == "evilkey" || k.kind == "clonekey" {
+		if k.kind == "evilkey" || k.kind == "clonekey" || k.kind == "wildcard-replay" {
 			srv = "zone"
 		}
-		if k.kind == "dropds" || k.kind == "swapds" || k.kind == "ds-to-soa" || k.kind == "ds-to-nsec" || k.kind == "ds-to-nssig" {
+		if k.kind == "dropds" || k.kind == "swapds" || k.kind == "ds-to-soa" || k.kind == "ds-to-nsec" || k.kind == "ds-to-nssig" || k.kind == "ds-childside" {
 			srv = vlib.Pick(r, []string{"tld", "tld", "zone", "root"})
 		}
 		e(fmt.Sprintf("l3 tamper %s %s %s %s", srv, k.kind, k.arg, k.scope))
